@@ -10,6 +10,7 @@ from harness import common as C
 from harness import gen, model, ref
 from harness.model import T
 from harness.props.c01 import compare_load, load_outcome
+from harness.props import v1streams
 
 SETTINGS = {
     'key_transform_with_dump': ['SNAKE', 'PASCAL'],
@@ -78,6 +79,10 @@ def find_nested(d, shape):
 
 
 def run(ctx: C.Ctx):
+    v1streams.run_streams(ctx, run_default, run_v1)
+
+
+def run_default(ctx: C.Ctx):
     from dataclass_wizard import fromdict, asdict
     from dataclass_wizard.errors import UnknownKeysError
     rng = ctx.rng
@@ -188,3 +193,147 @@ def run(ctx: C.Ctx):
         outs = ctx.driver.run(reqs)
         for (case, out, built), o_ in zip(pend, outs):
             compare_load(ctx, 'cascade:load-model', case, out, o_, built)
+
+
+# --------------------------------------------------------------------------- v1 engine
+
+V1_SETTINGS = {
+    'v1_on_unknown_key': ['RAISE', 'IGNORE'],
+    'v1_key_case': ['CAMEL', 'PASCAL', 'KEBAB', 'AUTO'],
+}
+LINKS = ['direct', 'direct', 'optional', 'list', 'dictval', 'tuple']
+
+
+def pick_v1_meta(rng, p_unset=0.5):
+    m = {}
+    for k, vals in V1_SETTINGS.items():
+        if rng.random() < p_unset:
+            continue
+        m[k] = rng.choice(vals)
+    return m
+
+
+def link_ty(link, n):
+    return {'direct': n, 'optional': T('optional', n), 'list': T('list', n), 'dictval': T('dict', T('str'), n),
+            'tuple': T('tuple', T('int'), n)}[link]
+
+
+def link_val(link, v):
+    return {'direct': v, 'optional': v, 'list': [v], 'dictval': {'k': v}, 'tuple': (1, v)}[link]
+
+
+def link_doc(link, d):
+    return {'direct': d, 'optional': d, 'list': [d], 'dictval': {'k': d}, 'tuple': [1, d]}[link]
+
+
+def run_v1(ctx: C.Ctx):
+    from dataclass_wizard import fromdict
+    from dataclass_wizard.errors import UnknownKeysError, JSONWizardError
+    rng = v1streams.sub_rng(ctx)
+    gen.SUBS = False
+    ctx.rule = ('v1 engine, three levels root → mid → leaf (a quarter: root → leaf): each class with no Meta / an inner Meta / a bound Meta over '
+                '{v1_on_unknown_key in unset, RAISE, IGNORE} × {v1_key_case in unset, CAMEL, PASCAL, KEBAB, AUTO}, recursive in {unset, True, False} '
+                'on the root, each link one of direct / Optional / list / dict value / tuple; the document is spelled per class with the key case of '
+                'effective(own, ROOT) and carries one unknown key at the root, mid or leaf level (or none): the load must accept / reject per '
+                'the effective policy of exactly that class (settings an intermediate class sets for itself never reach the leaf) and rebuild the '
+                'values; also vs the Lean model of the v1 engine. Non-trivial = distinct (metas, recursive, links, site).')
+    n = ctx.quick(450, 5000)
+    reqs, pend = [], []
+    for j in range(n):
+        i = v1streams.OFFSET + j
+        if ctx.done(i):
+            break
+        nm = v1streams.Namer(j)
+        three = rng.random() < 0.75
+        m_r = pick_v1_meta(rng)
+        m_r['v1'] = True
+        recursive = rng.choice([None, None, None, True, False])
+        if recursive is not None:
+            m_r['recursive'] = recursive
+        metas = {}
+        for lvl in ('mid', 'leaf'):
+            r = rng.random()
+            if r < 0.4:
+                metas[lvl] = None                      # sets nothing
+            else:
+                m = pick_v1_meta(rng, p_unset=0.35)
+                m['v1'] = True
+                metas[lvl] = m
+        wiz = {lvl: rng.random() < 0.5 for lvl in ('root', 'mid', 'leaf')}
+        l1, l2 = rng.choice(LINKS), rng.choice(LINKS)
+        leaf = {'k': 'cls', 'info': {'name': nm('L'), 'fields': [{'name': 'leaf_val'}, {'name': 'opt_txt', 'dflt': ['lit', 'dflt'], 'factory': False}],
+                                     'wizard': wiz['leaf'], 'meta': metas['leaf']},
+                'ftys': [['leaf_val', T('int')], ['opt_txt', T('str')]]}
+        if three:
+            mid = {'k': 'cls', 'info': {'name': nm('M'), 'fields': [{'name': 'mid_num'}, {'name': 'the_leaf'}], 'wizard': wiz['mid'], 'meta': metas['mid']},
+                   'ftys': [['mid_num', T('int')], ['the_leaf', link_ty(l2, leaf)]]}
+            below = mid
+        else:
+            below = leaf
+        root = {'k': 'cls', 'info': {'name': nm('R'), 'fields': [{'name': 'the_child'}, {'name': 'root_num', 'dflt': ['lit', 0], 'factory': False}],
+                                     'wizard': wiz['root'], 'meta': m_r},
+                'ftys': [['the_child', link_ty(l1, below)], ['root_num', T('int')]]}
+        site = rng.choice(['none', 'root', 'mid', 'leaf', 'leaf', 'leaf'] if three else ['none', 'root', 'leaf', 'leaf'])
+        vals = dict(leaf_val=rng.choice([3, -1]), opt_txt=rng.choice(['x', 'dflt']), mid_num=rng.choice([1, 2]), root_num=rng.choice([0, 5]))
+        omit_opt = rng.random() < 0.3
+        try:
+            built = model.Built(root)
+        except Exception as e:
+            ctx.count('build_error')
+            ctx.notes.setdefault('build_errors', []).append(repr(e)[:300])
+            continue
+        try:
+            if not ctx.begin_case(i):
+                continue
+            eff = {'root': v1streams.effective(m_r, None), 'mid': v1streams.effective(metas['mid'], m_r), 'leaf': v1streams.effective(metas['leaf'], m_r)}
+            kc = {lvl: eff[lvl].get('v1_key_case') for lvl in eff}
+            L, R = built.get(leaf['info']['name']), built.root
+            lv = L(leaf_val=vals['leaf_val']) if omit_opt else L(leaf_val=vals['leaf_val'], opt_txt=vals['opt_txt'])
+            ld = {v1streams.key_for('leaf_val', kc['leaf']): vals['leaf_val']}
+            if not omit_opt:
+                ld[v1streams.key_for('opt_txt', kc['leaf'])] = vals['opt_txt']
+            if site == 'leaf':
+                ld['zzz_unknown'] = 1
+            if three:
+                M = built.get(mid['info']['name'])
+                bv = M(mid_num=vals['mid_num'], the_leaf=link_val(l2, lv))
+                bd = {v1streams.key_for('mid_num', kc['mid']): vals['mid_num'], v1streams.key_for('the_leaf', kc['mid']): link_doc(l2, ld)}
+                if site == 'mid':
+                    bd['zzz_unknown'] = 1
+            else:
+                bv, bd = lv, ld
+            want = R(the_child=link_val(l1, bv), root_num=vals['root_num'])
+            doc = {v1streams.key_for('the_child', kc['root']): link_doc(l1, bd), v1streams.key_for('root_num', kc['root']): vals['root_num']}
+            if site == 'root':
+                doc['zzz_unknown'] = 1
+            doc = json.loads(json.dumps(doc))
+            case = {'ty': root, 'doc': repr(doc)[:500], 'links': [l1, l2] if three else [l1], 'site': site, 'engine': 'v1'}
+            ctx.seen('cascade:v1:' + ('3' if three else '2'), case)
+            src = dict(src=built.source)
+            out = load_outcome(lambda: fromdict(R, copy.deepcopy(doc)))
+            names = {'root': root['info']['name'], 'mid': mid['info']['name'] if three else None, 'leaf': leaf['info']['name']}
+            want_raise = site != 'none' and eff[site].get('v1_on_unknown_key') == 'RAISE'
+            descr = f'effective settings root={eff["root"]}, mid={eff["mid"] if three else None}, leaf={eff["leaf"]}'
+            if want_raise:
+                if out[0] == 'ok':
+                    ctx.fail('cascade:v1:unknown', case, f'unknown key at the {site} level, whose effective policy is RAISE, was accepted ({descr})', detail=src)
+                elif not isinstance(out[1], UnknownKeysError) or out[1].class_name != names[site]:
+                    ctx.fail('cascade:v1:unknown', case, f'unknown key at the {site} level (class {names[site]}, effective policy RAISE): expected its '
+                             f'UnknownKeysError, got {type(out[1]).__name__} for class {getattr(out[1], "class_name", None)!r}: {str(out[1])[:200]} ({descr})', detail=src)
+            elif out[0] == 'err':
+                e = out[1]
+                who = [lvl for lvl, nme in names.items() if nme == getattr(e, 'class_name', None)]
+                ctx.fail('cascade:v1:load', case, f'document spelled and filled per merge(own, ROOT) was rejected: {type(e).__name__} for class '
+                         f'{getattr(e, "class_name", None)!r} ({"/".join(who) or "?"} level): {str(e)[:200]} ({descr})', detail=src)
+            elif not ref.same_typed(out[1], want):
+                ctx.fail('cascade:v1:load', case, f'loaded {out[1]!r}, expected {want!r} ({descr})'[:1000], detail=src)
+            st = model.StdTables()
+            st.add_json(doc)
+            reqs.append({'op': 'loadv1', 'ty': model.enc_ty(root), 'doc': model.enc_j(doc), 'std': st.build()})
+            pend.append((case, out, built))
+        finally:
+            built.close()
+    if ctx.model_available:
+        outs = ctx.driver.run(reqs)
+        for (case, out, built), o_ in zip(pend, outs):
+            compare_load(ctx, 'cascade:v1:load-model', case, out, o_, built)
